@@ -429,7 +429,12 @@ func c19Generated(c *fw.Ctx) {
 			continue
 		}
 		if !eventsEqual(t.Events, tt.Events) {
-			c.Violate("transparency/"+classifyEventMismatch(tt.Events, t.Events), desc()+"\ntwin events: "+recgram.EventsString(tt.Events), files)
+			sig := "transparency/" + classifyEventMismatch(tt.Events, t.Events)
+			if trimOnlyDiff(t.Events, tt.Events, m.in.text) {
+				// same nodes, only the amount of trailing whitespace/comments inside node ranges differs
+				sig = "transparency/trailing-whitespace-trimming-differs-from-twin"
+			}
+			c.Violate(sig, desc()+"\ntwin events: "+recgram.EventsString(tt.Events), files)
 			continue
 		}
 		if t.Val != tt.Val {
@@ -451,6 +456,38 @@ func c19Generated(c *fw.Ctx) {
 	for _, k := range keys {
 		c.Distinct(k)
 	}
+}
+
+// trimOnlyDiff: both logs have the same nodes in the same order and differ only in end offsets,
+// the text between the two ends consisting of whitespace and comments.
+func trimOnlyDiff(a, b []genrun.Event, text string) bool {
+	if len(a) != len(b) {
+		return false
+	}
+	for i := range a {
+		if a[i].T != b[i].T || a[i].S != b[i].S || a[i].F != b[i].F {
+			return false
+		}
+		lo, hi := a[i].E, b[i].E
+		if lo > hi {
+			lo, hi = hi, lo
+		}
+		if lo < 0 || hi > len(text) {
+			return false
+		}
+		inComment := false
+		for _, ch := range []byte(text[lo:hi]) {
+			switch {
+			case inComment:
+				inComment = ch != '\n'
+			case ch == '#':
+				inComment = true
+			case ch != ' ' && ch != '\t' && ch != '\n' && ch != '\r':
+				return false
+			}
+		}
+	}
+	return true
 }
 
 func eventsEqual(a, b []genrun.Event) bool {
